@@ -98,7 +98,7 @@ impl Group for C14 {
          adds, reorgs of depth 1-6 followed by alternative blocks; non-trivial = at least one reorg that disconnects \
          a block with a monitor-relevant transaction"
     }
-    fn budget(&self, tier: Tier) -> usize { if tier == Tier::Quick { 120 } else { 1500 } }
+    fn budget(&self, tier: Tier) -> usize { if tier == Tier::Quick { 300 } else { 4000 } }
     fn corpus(&self) -> Vec<Vec<String>> {
         let mk = |steps: &[(&str, &str, &[u64])]| -> Vec<String> {
             let mut v = vec![init_line()];
